@@ -35,15 +35,28 @@ def _work(args):
         h = hs[idx]
         if tier == "thorough" and "thorough_opts" in h.opts:
             h.opts.update(h.opts["thorough_opts"])
-        r = harness.run_symbolic(h, tier)
+        if h.opts.get("native_only"):
+            # bounded stand-in (never counted as proved): the contract is only run natively on sampled inputs of the real code
+            r = {"harness": h.name, "status": "ok", "paths": 0, "functions": {}, "lemmas": [], "uf": [], "stubbed": [], "shims": [],
+                 "obligations": {n_: {"instances": 0, "unsat": 0, "sat": 0, "unknown": 0, "vacuous": 0, "backends": {}, "seconds": 0.0, "models": [], "notes": []}
+                                 for n_ in h.ensures}}
+            for spec in h.fns:
+                r["functions"][spec] = {"bounded_native_only": True}
+        else:
+            r = harness.run_symbolic(h, tier)
         # contract cross-check on the real code (native execution)
         n = h.opts.get("xcheck", 25 if tier == "quick" else 400)
+        if h.opts.get("native_only"):
+            n = h.opts.get("samples", 300) * (1 if tier == "quick" else 10)
         t0 = time.time()
         try:
             ran, fails, errors = harness.run_concrete(h, None, seed, n)
         except BaseException:
             ran, fails, errors = 0, [], [(traceback.format_exc(), {})]
-        r["xcheck"] = {"tried": n, "ran": ran, "fails": [(a, b) for a, b in fails[:5]], "n_fails": len(fails),
+        first = {}
+        for a, b in fails:
+            first.setdefault(a, b)
+        r["xcheck"] = {"tried": n, "ran": ran, "fails": [(a, b) for a, b in list(first.items())[:40]], "n_fails": len(fails),
                        "errors": [(a, b) for a, b in errors[:3]], "n_errors": len(errors), "seconds": time.time() - t0}
         # replay of refuted obligations
         for name, rec in r["obligations"].items():
@@ -117,8 +130,31 @@ def cmd_check(prop, tier, jobs):
         paths += r.get("paths", 0)
         xc = r.get("xcheck", {})
         xran += xc.get("ran", 0)
-        if h.opts.get("bounded"):
+        if h.opts.get("bounded") and not h.opts.get("native_only"):
             bounded.append({"harness": h.name, "bound": h.opts["bounded"]})
+        if h.opts.get("native_only"):
+            fails_by = {}
+            for f in xc.get("fails", []):
+                fails_by.setdefault(f[0], f[1])
+            item = {"harness": h.name, "kind": "bounded stand-in: native sampled check of the real code, NOT a proof", "bound": h.opts.get("bounded", ""),
+                    "samples_run": xc.get("ran", 0), "functions": h.fns, "obligations": [n_ for n_ in h.ensures if not n_.endswith(".noraise")], "failed": sorted(fails_by)}
+            bounded.append(item)
+            for name, inp in fails_by.items():
+                rec = r["obligations"].get(name) or {"models": [], "notes": [], "instances": 0, "sat": 1}
+                rec["replay"] = {"confirmed": True, "source": "bounded native check", "inputs": inp}
+                rec.setdefault("models", [])
+                rec.setdefault("notes", [])
+                rec.setdefault("instances", 0)
+                rec.setdefault("sat", 1)
+                if name in known:
+                    known_hit.append((name, known[name]))
+                else:
+                    violations.append((h, name, rec, r))
+            if xc.get("n_errors"):
+                undecided.append((h.name, "*", "bounded native check raised", xc["errors"][:1]))
+            elif xc.get("ran", 0) == 0:
+                undecided.append((h.name, "*", "bounded native check vacuous", ["no native sample satisfied the harness's assumptions"]))
+            continue
         for name in h.ensures:
             rec = r["obligations"][name]
             n_obl += 1
